@@ -60,6 +60,16 @@ class GhostDataset:
                 break
             cond = E.and_(g, E.eq(r, idx))
             cur = _ite_val(cond, val, cur)
+        if cur is None:
+            # nothing was ever written to this dataset: every row holds an unspecified (filler) value
+            sort = E.I if (self.dtype is not None and np.dtype(self.dtype).kind in "iu") else E.R
+            row = self.shape[1:] if len(self.shape) > 1 else ()
+            if row:
+                out = np.empty(row, dtype=object)
+                for pos in np.ndindex(*row):
+                    out[pos] = Sym(E.uf("unwritten", (), sort))
+                return out
+            return Sym(E.uf("unwritten", (), sort))
         return cur
 
     def written(self, r, upto_event=None):
